@@ -20,6 +20,8 @@ struct Log {
     evaluators: Vec<(usize, String, String, bool)>,
     best_sizes: Vec<(usize, usize)>,
     deadline_calls: usize,
+    /// answers given to consultations made on the calling thread (the reduction sites, in program order)
+    main_answers: String,
 }
 
 struct RecTap {
@@ -31,6 +33,7 @@ struct RecTap {
     slots: Option<std::collections::HashMap<(usize, usize, u8, bool), u64>>,
     start: std::time::Instant,
     order: Mutex<Vec<(usize, usize, u8, bool)>>,
+    main_thread: std::thread::ThreadId,
 }
 
 const SLOT: std::time::Duration = std::time::Duration::from_millis(4);
@@ -62,7 +65,11 @@ impl Tap for RecTap {
         let mut l = self.log.lock().unwrap();
         let n = l.deadline_calls;
         l.deadline_calls += 1;
-        self.expire_at.map(|k| n >= k)
+        let ans = self.expire_at.map(|k| n >= k);
+        if std::thread::current().id() == self.main_thread {
+            l.main_answers.push(if ans == Some(true) { '1' } else { '0' });
+        }
+        ans
     }
     fn deflate(&self, deflater: Deflaters, data: &[u8], _max: Option<usize>) {
         let mut l = self.log.lock().unwrap();
@@ -126,6 +133,7 @@ fn with_log_sched<T>(
         slots,
         start: std::time::Instant::now(),
         order: Mutex::new(Vec::new()),
+        main_thread: std::thread::current().id(),
     });
     reset_eval_ids();
     set_tap(Some(tap.clone()));
@@ -167,6 +175,9 @@ fn with_log_sched<T>(
         out.push_str(&format!(" | K {} {} {}", e, n, f));
     }
     out.push_str(&format!(" | N {}", log.deadline_calls));
+    if !log.main_answers.is_empty() {
+        out.push_str(&format!(" | M {}", log.main_answers));
+    }
     let order = tap.order.lock().unwrap().clone();
     if !order.is_empty() {
         let v: Vec<String> = order
